@@ -1,7 +1,7 @@
 SPECIFICATION Spec
 CONSTANTS
   FCs = {0, 1, 2, 3, 4, 5, 6, 7, 15, 16, 23, 129}
-  Addrs = {0, 1, 17, 65535}
+  Addrs = {0, 1, 16, 17, 32, 65535}
   Qtys = {0, 1, 2, 9, 16, 125, 126, 128, 2000, 2001, 2041, 32768, 65280, 65535}
   LenClasses = {"exact", "short", "long", "bcwrong", "empty"}
   MapNames = {"sparse", "dense300", "valid", "top"}
